@@ -15,10 +15,7 @@ def load():
     from vc.lib2 import DirLoopLib
     from contracts import common
     import contracts.checkers, contracts.leaf, contracts.refs, contracts.objects, contracts.meta  # noqa
-    try:
-        import contracts.init  # noqa
-    except ModuleNotFoundError:
-        pass
+    import contracts.init  # noqa
     return Engine, DirLoopLib, common
 
 
